@@ -470,6 +470,43 @@ func streamC05(env *runEnv) {
 		g.stop()
 		fa.stop()
 	}
+	// the gateway is started before the authentication service has created its socket (boot order): the
+	// configured mechanisms are the configured mechanisms all the same
+	for vi, auths := range [][]string{{"openid", "ntlm"}, {"ntlm"}, {"openid", "local"}} {
+		dir := filepath.Join(env.workdir, fmt.Sprintf("c05-late-%d", vi))
+		mkdirAll(dir)
+		sock := filepath.Join(dir, "late.sock")
+		gc := gwConfig{authSet: true, auth: auths, tlsDisable: true, hosts: []string{"127.0.0.1:3389"}, hostSelection: "roundrobin",
+			providerURL: idp.srv.URL, clientID: idp.clientID, authSocket: sock, tokenAuth: bp(auths[0] == "openid")}
+		tlsOn := false
+		if auths[len(auths)-1] == "local" {
+			gc.tlsDisable = false
+			gc.certFile, gc.keyFile = selfSigned(dir)
+			tlsOn = true
+		}
+		yaml, ev := gc.render("file")
+		g, ok := startGateway(dir, yaml, ev, tlsOn)
+		verdict := "exact"
+		if !ok {
+			verdict = "did-not-start"
+		} else {
+			fa := newFakeAuth(sock, users)
+			for _, hdr := range [][]string{nil, {be("1", "wrong")}, {"NTLM AAAA"}} {
+				if c, err := dialGateway(g); err == nil {
+					st, _, _ := c.do("RDG_OUT_DATA", hdr, false)
+					c.c.Close()
+					if st == 200 && verdict == "exact" {
+						verdict = fmt.Sprintf("tunnel-request-accepted-without-confirmed-credentials-(%d-authorization-values)", len(hdr))
+					}
+				}
+			}
+			fa.stop()
+		}
+		g.stop()
+		env.count("c05.late-socket." + strings.SplitN(verdict, "-", 2)[0])
+		env.emit("exact", "gateway-started-before-the-authentication-service-"+strings.Join(auths, "+"), verdict)
+	}
+
 }
 
 // runNtlmSeq performs NTLM message sequences on one connection (the session is
